@@ -142,8 +142,8 @@ func scenario(name string, seq []string, stopAfter int, senders int, bound int, 
 			}
 			q := make(chan os.Signal, 1)
 			stopAt := time.Duration(stopAfter)*T/10 + T/20
-			if burst {
-				stopAt = T / 10
+			if burst && stopAfter == 0 {
+				stopAt = T / 10 // the stop signal falls into the same instant as the burst
 			}
 			vs.GoNamed("stopper", func() {
 				vs.Sleep(stopAt)
@@ -279,39 +279,69 @@ func main() {
 			}
 		}
 	}
-	// (b) scheduling layer
+	// (b) scheduling layer: spaced sequences are explored COMPLETELY (no preemption bound: every
+	// interleaving at scheduling-point granularity); bursts (all datagrams and the stop signal in one
+	// virtual instant) completely for length 1 (thorough: also length 2, sharded over 16 work items
+	// each) and with a preemption bound beyond that.
 	for _, seq := range sequences([]string{"valid", "valid-v6.62", "bad-boolean"}, schedLen) {
 		for stop := 0; stop <= len(seq); stop++ {
-			scenarios = append(scenarios, scenario(fmt.Sprintf("sched/%v/stop=%d", seq, stop), seq, stop, 1, schedBound, 1, false))
+			scenarios = append(scenarios, scenario(fmt.Sprintf("sched/%v/stop=%d/unbounded", seq, stop), seq, stop, 1, -1, 1, false))
 		}
-		// burst: all datagrams and the stop signal in the same virtual instant
-		scenarios = append(scenarios, scenario(fmt.Sprintf("sched-burst/%v", seq), seq, 0, 1, schedBound, 1, true))
+		if len(seq) == 0 {
+			continue
+		}
+		s := scenario(fmt.Sprintf("sched-burst/%v", seq), seq, 0, 1, schedBound, 1, true)
+		switch {
+		case len(seq) == 1:
+			s.Bound, s.Name = -1, s.Name+"/unbounded"
+		case len(seq) == 2 && r.Thorough():
+			s.Bound, s.Name, s.Shards = -1, s.Name+"/unbounded", 16
+		case len(seq) == 3:
+			s.Shards = 8
+		}
+		scenarios = append(scenarios, s)
 	}
 	for _, seq := range sequences(classes, 1) {
-		scenarios = append(scenarios, scenario(fmt.Sprintf("content-burst/%v", seq), seq, 0, 1, 1, 1, true))
-	}
-	if r.Thorough() {
-		// deeper preemption bound on the shortest sequences
-		for _, seq := range sequences([]string{"valid", "bad-boolean"}, 1) {
-			for stop := 0; stop <= len(seq); stop++ {
-				scenarios = append(scenarios, scenario(fmt.Sprintf("sched3/%v/stop=%d", seq, stop), seq, stop, 1, 3, 1, false))
-			}
-			if len(seq) > 0 {
-				scenarios = append(scenarios, scenario(fmt.Sprintf("sched3-burst/%v", seq), seq, 0, 1, 3, 1, true))
-			}
+		if len(seq) > 0 {
+			scenarios = append(scenarios, scenario(fmt.Sprintf("content-burst/%v/unbounded", seq), seq, 0, 1, -1, 1, true))
 		}
+	}
+	// long sequences with a small preemption bound: queues, batching or rate-dependent behaviour
+	// only show with many events in flight
+	long := make([]string, 12)
+	for i := range long {
+		long[i] = "valid"
+		if i%5 == 4 {
+			long[i] = "valid-v6.62"
+		}
+	}
+	longBound := 1
+	if r.Thorough() {
+		longBound = 2
+	}
+	mixed := append(append([]string{}, long[:6]...), "bad-boolean", "valid", "len63", "valid", "serial-0", "valid")
+	for _, ls := range []e1.Scenario{
+		scenario("long-burst/12-valid/stop-with-burst", long, 0, 1, longBound, 1, true),
+		scenario("long-burst/12-valid/stop-later", long, 3, 1, longBound, 1, true),
+		scenario("long-spaced/12-valid/stop=12", long, 12, 2, longBound, 1, false),
+		scenario("long-spaced/12-valid/stop=6", long, 6, 1, longBound, 1, false),
+		scenario("long-burst/12-mixed/stop-later", mixed, 3, 2, longBound, 1, true),
+	} {
+		ls.Deviations = 2 // at most 2 non-default choices of any kind (forced-switch orders included)
+		ls.Shards = 4
+		scenarios = append(scenarios, ls)
 	}
 	// (c) start/stop cycles on the same address
 	for _, seq := range sequences([]string{"valid", "bad-boolean"}, 1) {
 		for stop := 0; stop <= len(seq); stop++ {
-			scenarios = append(scenarios, scenario(fmt.Sprintf("cycles/%v/stop=%d", seq, stop), seq, stop, 1, 1, 2, false))
+			scenarios = append(scenarios, scenario(fmt.Sprintf("cycles/%v/stop=%d/unbounded", seq, stop), seq, stop, 1, -1, 2, false))
 		}
 	}
 	e1.RunAll(r, scenarios, 0)
 	if r.Worker == "" && r.Replay == "" {
 		e1.Conformance(r)
 	}
-	r.Rule(fmt.Sprintf("(a) every datagram-class sequence of length <= %d over %d classes x stop signal after every prefix x 1-2 senders, preemption bound 0; (b) every sequence of length <= %d over {valid, v6.62, malformed} x stop after every prefix under all interleavings with <= %d preemptions (thorough: bound 3 on length <= 1); (c) two consecutive Listen runs on the same address. distinct = distinct (datagrams read, events, errors) labels", contentLen, len(classes), schedLen, schedBound))
+	r.Rule(fmt.Sprintf("(a) every datagram-class sequence of length <= %d over %d classes x stop signal after every prefix x 1-2 senders, preemption bound 0; (b) every sequence of length <= %d over {valid, v6.62, malformed} x stop after every prefix under ALL interleavings (no preemption bound), and as a burst (datagrams and stop signal in one instant) under ALL interleavings for length 1 (thorough: length <= 2) and with <= %d preemptions beyond; (c) two consecutive Listen runs on the same address under all interleavings; (d) 12-event sequences (burst and spaced, valid and mixed) with at most 2 non-default scheduling choices of any kind. distinct = distinct (datagrams read, events, errors) labels", contentLen, len(classes), schedLen, schedBound))
 	r.Assume("a datagram counts as received when a read on the listen socket returned it (datagrams still queued when the socket is closed were never received)")
 	r.Assume("calendar-invalid (but BCD) timestamps are outside the alphabet: the library documents decoding them as 'no value'")
 	r.Finish()
